@@ -1,0 +1,17 @@
+//go:build verif
+
+package main
+
+import (
+	"net/http"
+	"os"
+)
+
+// With the "verif" build tag and BIP39_VERIF_UPSTREAM set, every HTTP fetch of
+// the tool is served in-process from that directory (no sockets): the request
+// path /bitcoin/bips/master/bip-0039/<lang>.txt is resolved below it.
+func init() {
+	if dir := os.Getenv("BIP39_VERIF_UPSTREAM"); dir != "" {
+		http.DefaultTransport = http.NewFileTransport(http.Dir(dir))
+	}
+}
